@@ -146,6 +146,9 @@ def run(ck, ix, tier):
 
     # ------------------------------------------------------------ formatter interface (shared with C09)
     interface_rule(ck, ix)
-    from .C07 import token_conservation_rule
+    from .C07 import token_conservation_rule, lookahead_offsets_rule
     token_conservation_rule(ck, ix)
+    lookahead_offsets_rule(ck, ix)
+    from .C15 import to_compact_rule
+    to_compact_rule(ck, ix)  # the '#' format modifier and to_compact on a Measurement choose the prefix from the nominal value in the unprefixed unit
     return EXPLANATION
